@@ -510,7 +510,8 @@ func families(tier string) []seq.Family {
 	return []seq.Family{
 		seqFamily("frame-sequences<=3/max1,4,8", alphabetA, 0, 3, []int{1, 4, 8}, 16, true),
 		seqFamily("frame-sequences=4/max4", alphabetA, 4, 4, []int{4}, 12, false),
-		seqFamily("runs-of-5..7-small-frames/max1,4,8", func(int) []sym { return alphabetB() }, 5, 7, []int{1, 4, 8}, 0, true),
+		seqFamily("runs-of-5..6-small-frames/max1,4,8", func(int) []sym { return alphabetB() }, 5, 6, []int{1, 4, 8}, 0, true),
+		seqFamily("runs-of-7-small-frames/max4", func(int) []sym { return alphabetB() }, 7, 7, []int{4}, 0, true),
 		longFamily([]int{4096 - 32, 4096 - 31, 4096 - 30, 4096, 70000, 4 << 20}),
 		hostileFamily([]int{1, 4, 1000, 65536}),
 		zeroFamily(),
